@@ -198,6 +198,41 @@ func runC05ToStr(c *Ctx) {
 				}
 			}
 			trace(val, 0)
+			if call == nil && bt.Name() == "bool" {
+				// hand-written FormatBool: the value decides between the constants "true" and "false"
+				okBool := false
+				for _, r := range refs(val) {
+					iff, isIf := r.(*ssa.If)
+					if !isIf {
+						continue
+					}
+					retConst := func(b *ssa.BasicBlock) string {
+						for d := 0; d < 3 && b != nil; d++ {
+							if ret, ok := b.Instrs[len(b.Instrs)-1].(*ssa.Return); ok && len(ret.Results) == 1 {
+								if s, ok := constString(ret.Results[0]); ok {
+									return s
+								}
+								if ph, ok := ret.Results[0].(*ssa.Phi); ok {
+									_ = ph
+								}
+								return "?"
+							}
+							if len(b.Succs) != 1 {
+								return "?"
+							}
+							b = b.Succs[0]
+						}
+						return "?"
+					}
+					if retConst(iff.Block().Succs[0]) == "true" && retConst(iff.Block().Succs[1]) == "false" {
+						okBool = true
+					}
+				}
+				if okBool {
+					c.OK("C05-TOSTR", "valid.ToStr", "type:bool", ta.Pos(), "true/false selected by the value")
+					continue
+				}
+			}
 			if call == nil {
 				c.Unk("C05-TOSTR", "valid.ToStr", "type:"+bt.Name(), ta.Pos(), "no formatting call found for this type case")
 				continue
